@@ -5,22 +5,27 @@
 (* has (scalar field, slice with spare capacity, map, pointer to a struct     *)
 (* holding a slice, struct nested by value holding a slice, `any` payload     *)
 (* holding a slice, `any` payload holding a map holding a slice, two fields   *)
-(* aliasing one array), TLC takes EVERY copy routine of the family            *)
+(* aliasing one array, an EMPTY slice with spare capacity), TLC takes every   *)
+(* copy routine of the family                                                 *)
 (*   per reference slot: copy deeply | share the original's cell | forget it  *)
 (*   per chosen scalar slot: keep | forget it                                 *)
-(* and then every sequence of at most MaxMut mutations of the copy.           *)
+(* (at most MaxDefects slots not copied deeply), applies it TWICE to the same *)
+(* original (copies k and k2, as cog does once per output language), and then *)
+(* every sequence of at most MaxMut mutations, each performed through one of  *)
+(* the three values (actor).  After every step the snapshots of the two       *)
+(* values that were NOT mutated must be unchanged.                            *)
 (*                                                                            *)
-(*  (a) Safe: a copy that satisfied Iso and Disjoint when it was made is      *)
-(*      immune: Snapshot(original) never changes.  (Design-level proof, for   *)
-(*      this bounded universe, that the two static clauses imply the third.)  *)
+(*  (a) Safe: copies that satisfied Iso and Disjoint when they were made are  *)
+(*      independent: no step through one value is visible in another.         *)
 (*  (b) Reveal: for every copy routine with exactly ONE defect, the mutation  *)
-(*      sequences that make the defect visible in the original are printed;   *)
-(*      the check derives from them the MUTATION PLAN executed on real        *)
-(*      copies, and verifies that every sharing defect has a revealing plan   *)
-(*      (otherwise the dynamic clause could not be observed: inconclusive).   *)
+(*      sequences that make the defect visible are printed; the check derives *)
+(*      from them the MUTATION PLANS executed on real copies (a core set that *)
+(*      covers every defect class, the rest in rotation) and verifies that    *)
+(*      every sharing defect has a revealing plan.  E.g. sharing an empty     *)
+(*      slice with spare capacity is only revealed by two values appending.   *)
 EXTENDS Heap, Json
 
-CONSTANTS MaxMut
+CONSTANTS MaxMut, MaxDefects
 
 \* ---- templates -----------------------------------------------------------
 Cell(kind, cap, slots) == [kind |-> kind, cap |-> cap, slots |-> slots]
@@ -46,76 +51,92 @@ T2 == [ o    |-> Cell("inl", 0, [a |-> Ref("slice", "x", 1), b |-> Ref("slice", 
 
 Templates == <<T1, T2>>
 \* inline cells are copied with their container, never chosen
-InlineId == [o |-> "k", oin |-> "kin"]
+InlineId == [o |-> [k |-> "k", k2 |-> "k2"], oin |-> [k |-> "kin", k2 |-> "k2in"]]
 \* scalar slots the copy routine may forget (one in the root, one behind a pointer)
 Droppable == {<<"o", "name">>, <<"p1", "val">>}
 
 \* ---- the family of copy routines -------------------------------------------
-CopyId(c) == IF c \in DOMAIN InlineId THEN InlineId[c] ELSE c \o "'"
+Suffix == [k |-> "'", k2 |-> "''"]
+CopyId(c, w) == IF c \in DOMAIN InlineId THEN InlineId[c][w] ELSE c \o Suffix[w]
 RefSlots(T) == {p \in UNION {{<<c, l>> : l \in DOMAIN T[c].slots} : c \in DOMAIN T} :
                   T[p[1]].slots[p[2]].t \in {"slice", "map", "ptr"}}
 ChoiceSlots(T) == RefSlots(T) \cup (Droppable \cap UNION {{<<c, l>> : l \in DOMAIN T[c].slots} : c \in DOMAIN T})
 Choices(T) == {ch \in [ChoiceSlots(T) -> {"deep", "share", "drop"}] :
                  \A p \in ChoiceSlots(T) : T[p[1]].slots[p[2]].t = "s" => ch[p] # "share"}
 
-CopyVal(v, how) ==
+CopyVal(v, how, w) ==
   IF v.t = "s" THEN (IF how = "drop" THEN Scalar("") ELSE v)
   ELSE IF v.t = "nil" THEN v
-  ELSE IF v.t = "inl" THEN [v EXCEPT !.c = CopyId(v.c)]
-  ELSE IF how = "deep" THEN [v EXCEPT !.c = CopyId(v.c)]
+  ELSE IF v.t = "inl" THEN [v EXCEPT !.c = CopyId(v.c, w)]
+  ELSE IF how = "deep" THEN [v EXCEPT !.c = CopyId(v.c, w)]
   ELSE IF how = "share" THEN v
   ELSE Nil
 How(T, ch, c, l) == IF <<c, l>> \in DOMAIN ch THEN ch[<<c, l>>] ELSE "deep"
-\* the heap after copying: the original's cells plus one primed cell per original cell
-Copied(T, ch) ==
-  LET new == [c2 \in {CopyId(c) : c \in DOMAIN T} |->
-                LET c == CHOOSE c \in DOMAIN T : CopyId(c) = c2 IN
-                  [T[c] EXCEPT !.slots = [l \in DOMAIN T[c].slots |-> CopyVal(T[c].slots[l], How(T, ch, c, l))]]]
-  IN new @@ T
+\* the cells of copy w: one per original cell
+CopyOf(T, ch, w) ==
+  [c2 \in {CopyId(c, w) : c \in DOMAIN T} |->
+     LET c == CHOOSE c \in DOMAIN T : CopyId(c, w) = c2 IN
+       [T[c] EXCEPT !.slots = [l \in DOMAIN T[c].slots |-> CopyVal(T[c].slots[l], How(T, ch, c, l), w)]]]
+\* the heap after copying twice with the same routine
+Copied(T, ch) == CopyOf(T, ch, "k") @@ CopyOf(T, ch, "k2") @@ T
 
-O == Inl("o")
-K == Inl("k")
+Root == [o |-> Inl("o"), k |-> Inl("k"), k2 |-> Inl("k2")]
+Values == DOMAIN Root
+O == Root["o"]
+K == Root["k"]
 
 VARIABLES h,      \* the heap
-          hist,   \* mutations applied to the copy so far
-          cfg     \* constant part of the behaviour: template number, choice, verdict of the static clauses
-vars == <<h, hist, cfg>>
+          hist,   \* mutations applied so far (each with its actor)
+          leaks,  \* <<actor, victim>>: a step through actor changed the snapshot of victim
+          cfg     \* constant part of the behaviour: template number, verdict of the static clauses, defects
+vars == <<h, hist, leaks, cfg>>
 
 \* choices below a slot that is not copied deeply are irrelevant: fix them to "deep" (canonical form)
 Canonical(T, ch) ==
   \A p \in DOMAIN ch : ch[p] # "deep" /\ T[p[1]].slots[p[2]].t # "s" =>
        \A q \in DOMAIN ch : q[1] \in ReachV(T, T[p[1]].slots[p[2]]) => ch[q] = "deep"
 
+NonDeep(ch) == {q \in DOMAIN ch : ch[q] # "deep"}
+PairwiseDisjoint(hh) == /\ Disjoint(hh, Root["o"], Root["k"]) /\ Disjoint(hh, Root["o"], Root["k2"])
+                        /\ Disjoint(hh, Root["k"], Root["k2"])
+
 Init == \E i \in 1..Len(Templates) : \E ch \in Choices(Templates[i]) :
           /\ Canonical(Templates[i], ch)
+          /\ Cardinality(NonDeep(ch)) <= MaxDefects
           /\ h = Copied(Templates[i], ch)
           /\ hist = <<>>
+          /\ leaks = {}
           /\ cfg = [tpl  |-> i,
-                    iso  |-> IsoV(Copied(Templates[i], ch), O, K),
-                    disj |-> Disjoint(Copied(Templates[i], ch), O, K),
-                    defects |-> {<<p[1], p[2], ch[p]>> : p \in {q \in DOMAIN ch : ch[q] # "deep"}}]
+                    iso  |-> IsoV(Copied(Templates[i], ch), O, K) /\ IsoV(Copied(Templates[i], ch), O, Root["k2"]),
+                    disj |-> PairwiseDisjoint(Copied(Templates[i], ch)),
+                    defects |-> {<<p[1], p[2], ch[p]>> : p \in NonDeep(ch)}]
 
+\* the two copies are interchangeable: the first step is taken through the original or the first copy
+Actors == IF hist = <<>> THEN {"o", "k"} ELSE Values
 Next == /\ Len(hist) < MaxMut
-        /\ \E m \in Sites(h, K) : h' = ApplyMut(h, m) /\ hist' = Append(hist, m)
+        /\ \E a \in Actors : \E m \in Sites(h, Root[a], a) :
+             /\ h' = ApplyMut(h, m)
+             /\ hist' = Append(hist, m)
+             /\ leaks' = leaks \cup {<<a, v>> : v \in {w \in Values \ {a} :
+                                         Snapshot(ApplyMut(h, m), Root[w]) # Snapshot(h, Root[w])}}
         /\ UNCHANGED cfg
 Spec == Init /\ [][Next]_vars
 
-Snap0 == Snapshot(Templates[cfg.tpl], O)
-Changed == Snapshot(h, O) # Snap0
-
-\* (a) the static clauses imply the dynamic one
-Safe == (cfg.iso /\ cfg.disj) => ~Changed
-\* the static clauses classify the copy routines exactly: faithful <=> nothing forgotten, disjoint <=> nothing shared
-\* (forgetting a nil or an empty slice is not a defect: DESIGN 6.0)
-ClassifyOK == /\ cfg.disj <=> ~\E d \in cfg.defects : d[3] = "share" /\ ~(LET v == Templates[cfg.tpl][d[1]].slots[d[2]] IN v.t = "slice" /\ v.n = 0)
+\* (a) the static clauses imply the dynamic one, for every pair of values and both directions
+Safe == (cfg.iso /\ cfg.disj) => leaks = {}
+\* the static clauses classify the copy routines exactly: faithful <=> nothing non-empty forgotten,
+\* disjoint <=> nothing shared (forgetting a nil or an empty slice is not a defect: DESIGN 6.0)
+ClassifyOK == /\ cfg.disj <=> ~\E d \in cfg.defects : d[3] = "share"
               /\ cfg.iso  <=> ~\E d \in cfg.defects : d[3] = "drop" /\ ~Empty(Templates[cfg.tpl], Templates[cfg.tpl][d[1]].slots[d[2]])
-\* a copy may be observed to change the original only through a shared cell
-OnlySharingLeaks == Changed => ~cfg.disj
+\* one value may be observed to change another only through a shared cell
+OnlySharingLeaks == leaks # {} => ~cfg.disj
 
 \* (b) which mutation sequences reveal which single defect
-Ops(s) == [i \in 1..Len(s) |-> s[i].op]
-Reveal == (Cardinality(cfg.defects) = 1 /\ hist # <<>>) =>
-            PrintT(<<"REVEAL", ToJson([tpl |-> cfg.tpl, defect |-> CHOOSE d \in cfg.defects : TRUE,
-                                       ops |-> Ops(hist), changed |-> Changed, disj |-> cfg.disj, iso |-> cfg.iso,
-                                       lastcell |-> hist[Len(hist)].c])>>)
+Steps(s) == [i \in 1..Len(s) |-> [a |-> s[i].a, op |-> s[i].op]]
+Single == Cardinality(cfg.defects) = 1
+Reveal == /\ (Single /\ hist = <<>>) =>
+               PrintT(<<"DEFECT", ToJson([tpl |-> cfg.tpl, defect |-> CHOOSE d \in cfg.defects : TRUE, disj |-> cfg.disj, iso |-> cfg.iso])>>)
+          /\ (Single /\ leaks # {}) =>
+               PrintT(<<"REVEAL", ToJson([tpl |-> cfg.tpl, defect |-> CHOOSE d \in cfg.defects : TRUE,
+                                          plan |-> Steps(hist), leaks |-> {p[1] \o ">" \o p[2] : p \in leaks}])>>)
 =============================================================================
